@@ -59,6 +59,8 @@ def make_value(desc, child_sum=0):
         return [make_value(x) for x in v]
     if k == "dict":
         return {kk: make_value(x) for kk, x in v}
+    if k == "unstorable":
+        return {1, 2}            # a set: computed fine, but not a type memento can store
     if k == "pdts":
         return pd.Timestamp(v)
     if k == "npscalar":
